@@ -9,7 +9,7 @@
 
 From Coq Require Import NArith PeanoNat List Bool.
 From Coq.Strings Require Import Byte.
-From DC Require Import Crc Frame FrameProofs.
+From DC Require Import Crc Frame FrameProofs Scratch ScratchProofs.
 Import ListNotations.
 Open Scope N_scope.
 
@@ -205,4 +205,43 @@ Example C12_nonvacuous_call :
   model_echo 2 (frame [7; 9]) = ([[7; 9]], inl [7; 9]) /\
   model_echo 3 (frame [7; 9]) = ([], inr raw_invalid) /\
   model_status 1 [111; 104] = inr (1, [111; 104]).
+Proof. vm_compute. repeat split; reflexivity. Qed.
+
+(** ** The serializer's scratch space ([LazyScratch], [Scratch.v])
+
+    "A frame built by [to_view_bytes] is accepted" presupposes that [to_view_bytes] builds a
+    frame for every message value.  The one part of it that is datacake's own logic is the
+    three-tier scratch space the serializer obtains its working blocks from.  The serializer
+    obtains and releases blocks in nested order, never an empty one: for every such forest of
+    sessions, of any depth, width and block sizes, on a fresh scratch space no request and no
+    release is refused, nothing panics (a release is never offered to a buffer whose pointer
+    was not yet computed) and nothing stays allocated. *)
+Theorem C12_scratch_never_refuses :
+  forall forest : list session,
+    forallb wf_session forest = true ->
+    exists s', run_sessions lazy_pop forest init = ROk s' /\ allocs s' = [] /\ Inv s'.
+Proof. exact forest_never_refused. Qed.
+
+(** The same for one more session on a scratch space in any state the invariant holds in. *)
+Theorem C12_scratch_session_from_any_state :
+  forall (t : session) (s : scratch),
+    wf_session t = true -> Inv s ->
+    exists s', run_session lazy_pop t s = ROk s' /\ allocs s' = allocs s /\ Inv s'.
+Proof. exact session_never_refused. Qed.
+
+(** A release that picks the tier by the block's size refuses a well-formed session (the
+    block went to the second tier because the first was partly used, not because it was big). *)
+Theorem C12_scratch_release_by_size_refuted :
+  wf_session by_size_witness = true /\
+  (exists s', run_session lazy_pop_by_size by_size_witness init = RErr s') /\
+  (exists s', run_session lazy_pop by_size_witness init = ROk s').
+Proof. exact pop_by_size_refuses. Qed.
+
+Example C12_nonvacuous_scratch :
+  let t := Node 8 8 [Node 1000 8 []; Node 1024 8 [Node 16384 16 [Node 3 1 []]]; Node 5 1 []] in
+  wf_session t = true /\
+  fst (run_trace [OPush 8 8; OPush 1024 8; OPush 16384 16; OPop 2 16384 16; OPop 1 1024 8; OPop 0 8 8] init [])
+    = [SPushed (HStack 0); SPushed (HHeap 0); SPushed (HAlloc 0); SPopOk; SPopOk; SPopOk] /\
+  fst (run_trace [OPush 8 8; OPush 16 8; OPop 0 8 8; OPop 1 16 8] init [])
+    = [SPushed (HStack 0); SPushed (HStack 8); SPopOk; SPopPanic].
 Proof. vm_compute. repeat split; reflexivity. Qed.
